@@ -5,7 +5,7 @@ C08 (c): the errors of `verify` over a whole (nested) instance are the reports o
 reachable constrained-primitive value with the stacked invariants of its type — at the path
 that leads to it.
 -/
-namespace AasVerif.Sdk
+namespace AasVerif.SdkV
 open AasVerif AasVerif.Expr
 
 /-- a value that verification looks at: where, the value, whose invariants -/
@@ -382,4 +382,4 @@ theorem verify_exact_targets (m : MM) (ρ : Env) (v : Val) (h : (verify m ρ v).
     simp only [reportErrors, List.mem_map]
     refine ⟨(d, []), (verifyInvs_exact ρ t.self t.invs (hq t ht) d []).mpr ⟨rfl, inv, hinv, hd, hf⟩, by simp⟩
 
-end AasVerif.Sdk
+end AasVerif.SdkV
